@@ -158,6 +158,7 @@ func (r *runner) deliverScripts(scripts [][]action, owners []string) error {
 			return err
 		}
 		d.route = d.queryABCI
+		d.noq = r.c.noq
 		ctx := d.committed()
 		ents, _, err := d.project(ctx, u)
 		if err != nil {
@@ -186,12 +187,13 @@ func (r *runner) deliverScripts(scripts [][]action, owners []string) error {
 			if err != nil {
 				return err
 			}
+			res.Signers = u.signerNames(msg)
 			ctx := d.committed()
 			ents, _, err := d.project(ctx, u)
 			if err != nil {
 				return err
 			}
-			st := step{Ev: a.K, Signer: a.Signer, Mo: a.Mo, O: a.O, S: a.S, B: a.B, Sp: a.Sp, Iss: u.issuerName(a), OK: res.OK, Stage: res.Stage,
+			st := step{Ev: a.K, Signer: a.Signer, Mo: a.Mo, O: a.O, S: a.S, B: a.B, Sp: a.Sp, Signers: res.Signers, Iss: u.issuerName(a), OK: res.OK, Stage: res.Stage,
 				Err: res.Err, Reg: ents, Sid: stateID(ents), HasQ: true, Q: d.queries(ctx, u, r.ps)}
 			if res.OK {
 				r.stats["accepted"]++
